@@ -3,6 +3,7 @@ import Jwt.Lemmas.Decisions
 import Jwt.Checker
 import Jwt.SetGet
 import Jwt.Builder
+import Jwt.Lemmas.Pipeline
 /-!
 # C14 — error reporting contract: failure is always flagged and explained
 
@@ -106,5 +107,22 @@ theorem C14_admission_messages (side : Side) (alg : Alg) (key : Option KeyItem) 
   cases claimsFail
   · exact ⟨(configPost_generated cfg jalg n ka).2.2, (configPost_generated cfg jalg n ka).2.1⟩
   · simp [configPost_claims_first]
+
+/-- **`jwt_checker_verify`'s exits are the source's.** For every environment, configuration and non-empty token the
+model returns what the decision skeleton *generated* from `jwt-common.c` returns, and the exits on which the source
+copies the per-call object's error state to the checker are exactly the ones the model does not mark `direct`
+(on those the source, or `__setkey_check`, writes the checker's message itself). -/
+theorem C14_verify_exits_are_source (env : Env) (ck : Checker) (t : Bytes) (ht : t ≠ []) (x : Bool) :
+    (verify env ck (some t)).2 = (checkerVerifyGen env ck.cfg t x).1 ∧
+    ((checkerVerifyGen env ck.cfg t x).2.2 = true ↔ ∀ e, (verifyCore env ck.cfg t).1 ≠ .direct e) :=
+  checkerVerify_generated env ck t ht x
+
+/-- in the generated code every exit but the last returns 1, and the last returns the checker's flag; the early exits
+for a missing token and for a failing callback have written a message to the checker -/
+theorem C14_verify_returns_are_source (a b c d e f g h i : Bool) (n : Nat) :
+    ((Jwt.Generated.Pipeline.checkerVerify a b c d e f g h i n).1 = 1 ∨ (Jwt.Generated.Pipeline.checkerVerify a b c d e f g h i n).1 = n) ∧
+    (Jwt.Generated.Pipeline.checkerVerify false true c d e f g h i n = (1, true, false)) ∧
+    (Jwt.Generated.Pipeline.checkerVerify false false true d e f g h i n = (1, true, false)) := by
+  refine ⟨checkerVerify_returns a b c d e f g h i n, ?_, ?_⟩ <;> simp [Jwt.Generated.Pipeline.checkerVerify]
 
 end Jwt.Props.C14
